@@ -627,6 +627,15 @@ def layout(draw, lex, comments=0, ws=True, case=True, tight=True, inner=True, co
                 cm[3]['gap'] = WS[(c >> 1) % len(WS)] if ws else ' '
             out.append(cm)
             prev = cm
+            if pool and (c >> 21) % 4 == 0:
+                # a cluster: a second comment (possibly a hint) directly after the first, glued / blank / on the next line
+                c2 = pool[(c >> 16) % len(pool)]
+                g2 = ['', ' ', '\n', '  '][(c >> 3) % 4]
+                if g2 == '' and (c2[0] == '#' or (cm[1][-1] not in '\r\n' and not cm[1].endswith('*/'))):
+                    g2 = ' '
+                cm2 = ['comment', c2, True, {'gap': g2, 'cluster': True}]
+                out.append(cm2)
+                prev = cm2
         if prev is None:
             gap = ''
         elif can_tight(prev, cur) and (meta.get('force') or (tight and (c & 1))):
